@@ -19,6 +19,8 @@ from prog import walk
 
 
 def run(ctx, only_solver=False):
+    from rules import shared
+    ctx.include('effect_inventory', shared.effect_inventory)   # no new process-wide mutable state (MIR statics inventory)
     p = ctx.prog
     I = ctx.interp(fuel=200000000)
     for f in list(I.forbidden):
